@@ -1,9 +1,76 @@
 import TaurexModel.Proto
+import TaurexModel.Transmission
 
 namespace Taurex.Ops.C01
-open Taurex.Proto
+open Taurex.Proto Taurex.Transmission
 
-/-- operations of the C01 model served by `driver_c01` (filled in by the C01 check) -/
-def ops : List Op := []
+/-- array-backed index functions (out of range → 0, never reached by the model on well-formed requests) -/
+def fn1 (xs : List Float) : Nat → Float :=
+  let a := xs.toArray
+  fun i => a.getD i 0
+
+def fn2 (xss : List (List Float)) : Nat → Nat → Float :=
+  let a := (xss.map List.toArray).toArray
+  fun i j => (a.getD i #[]).getD j 0
+
+def kindP : P Kind := do
+  let k ← nat
+  match k with
+  | 0 => pure Kind.lin
+  | 1 => pure Kind.sq
+  | 2 => pure Kind.layerOnly
+  | _ => failure
+
+def contribP : P (Contrib Float) := do
+  let k ← kindP
+  let s ← listOf (listOf flt)
+  pure { kind := k, sigma := fn2 s }
+
+def tab2 (n m : Nat) (f : Nat → Nat → Float) : List (List Float) :=
+  (List.range n).map fun i => (List.range m).map fun j => f i j
+
+/-- `c01.paths method rp z dz zb` → rows `l = 0..n-1`, row `l` has `n-l` chord segments -/
+def pathsOp (args : List String) : Option String :=
+  run (do
+    let m ← nat
+    let rp ← flt
+    let z ← listOf flt
+    let dz ← listOf flt
+    let zb ← listOf flt
+    let n := z.length
+    if dz.length ≠ n ∨ zb.length ≠ n + 1 then failure
+    let rows := (List.range n).map fun l =>
+      (List.range (n - l)).map fun k => chord (m != 0) rp (fn1 zb) (fn1 z) (fn1 dz) l k
+    pure (fList (fList fF) rows)) args
+
+/-- `c01.spectrum method rp rs z dz zb dens nwn contribs`
+    → transCut[n][nwn] transFull[n][nwn] depthCut[nwn] depthFull[nwn] bare opaque -/
+def spectrumOp (args : List String) : Option String :=
+  run (do
+    let m ← nat
+    let rp ← flt
+    let rs ← flt
+    let z ← listOf flt
+    let dz ← listOf flt
+    let zb ← listOf flt
+    let dens ← listOf flt
+    let nwn ← nat
+    let cs ← listOf contribP
+    let n := z.length
+    if dz.length ≠ n ∨ zb.length ≠ n + 1 ∨ dens.length ≠ n then failure
+    let (fz, fdz, fzb, fd) := (fn1 z, fn1 dz, fn1 zb, fn1 dens)
+    let nm := m != 0
+    let tc := tab2 n nwn fun l wn => modelTrans true nm rp n nwn fzb fz fdz fd cs l wn
+    let tf := tab2 n nwn fun l wn => modelTrans false nm rp n nwn fzb fz fdz fd cs l wn
+    let ftc := fn2 tc
+    let ftf := fn2 tf
+    let dc := (List.range nwn).map fun wn => depth rp rs n fz fdz (fun l => ftc l wn)
+    let df := (List.range nwn).map fun wn => depth rp rs n fz fdz (fun l => ftf l wn)
+    let bare := depth rp rs n fz fdz (fun _ => 1)
+    let opq := depth rp rs n fz fdz (fun _ => 0)
+    pure (fList (fList fF) tc ++ " " ++ fList (fList fF) tf ++ " " ++ fList fF dc ++ " " ++ fList fF df
+          ++ " " ++ fF bare ++ " " ++ fF opq)) args
+
+def ops : List Op := [("c01.paths", pathsOp), ("c01.spectrum", spectrumOp)]
 
 end Taurex.Ops.C01
